@@ -11,7 +11,7 @@ PROPS = {"C20": dict(
           "directory renamed to another origin's hash, truncated, missing; mirror: the same on mirror.v0.json and the mirror checkpoint, right-edge tile missing / bit-flipped / shortened / lengthened, "
           "mirror ahead of pending, pending missing or of another origin. Ages within 1.5 s of the 5 s freshness threshold (or of the 7 d + 3 s read-only threshold) are never generated; fresh = timestamp in the future, "
           "or 0-1 s old with the case discarded if the machine needed more than 2 s. "
-          "non-trivial = exactly one defect, or >= 2 defects with at least one on a staging entry; distinct = the full state descriptor; also: checkpoints whose origin line differs while the signature line keeps the log's name; witnesses with 110-170 origins (multi-KiB report)"),
+          "non-trivial = exactly one defect, or >= 2 defects with at least one on a staging entry; distinct = the full state descriptor; also: checkpoints whose origin line differs while the signature line keeps the log's name; witnesses with 110-170 origins (multi-KiB report); one case in forty probes a healthy log again through the same directory handle after its checkpoint became too old"),
     assumptions=["the harness' independent reading of the files (vfref note parser, own ECDSA / Ed25519 / ML-DSA-44 cosignature checks, own right-edge root recomputation) agrees with the expectation by construction on every case, otherwise the run is inconclusive",
                  "directory content may be rewritten under a running skylight (it re-reads the directories on every /health)"],
     technique="state-space exploration of directory defects with a three-way oracle (construction, independent evaluation, code); function level in-package and /health of the built binary",
